@@ -153,6 +153,65 @@ fn o3_mkdir_over_deleted_lower_dir_does_not_resurrect() {
         "after restart the re-created directory shows the old lower contents: it was not marked opaque");
 }
 
+// O3b: the directory re-created over a deleted lower directory is removed again: the name must stay deleted.
+#[test]
+fn o3b_rmdir_of_recreated_dir_stays_deleted() {
+    let (up, low) = (TempDir::new().unwrap(), TempDir::new().unwrap());
+    fs::create_dir(low.as_path().join("e")).unwrap();
+    {
+        let fs = overlay(Some(up.as_path()), &[low.as_path()]);
+        let ctx = Context::default();
+        fs.rmdir(&ctx, ROOT_ID, &c("e")).unwrap();
+        fs.mkdir(&ctx, ROOT_ID, &c("e"), 0o755, 0).unwrap();
+        fs.rmdir(&ctx, ROOT_ID, &c("e")).unwrap();
+        assert!(visible(&fs, ROOT_ID, "e").is_none());
+    }
+    let fresh = overlay(Some(up.as_path()), &[low.as_path()]);
+    assert!(visible(&fresh, ROOT_ID, "e").is_none(), "after restart the removed directory e is back (the lower one)");
+}
+
+// O6: the upper layer already holds a file of the same name as a lower file (the state every copy-up leaves behind, seen after a restart).
+// Deleting it must hide the lower file as well.
+#[test]
+fn o6_unlink_of_upper_file_shadowing_lower_file_stays_deleted() {
+    let (up, low) = (TempDir::new().unwrap(), TempDir::new().unwrap());
+    fs::write(low.as_path().join("s"), b"lower").unwrap();
+    fs::write(up.as_path().join("s"), b"upper").unwrap();
+    {
+        let fs = overlay(Some(up.as_path()), &[low.as_path()]);
+        assert!(visible(&fs, ROOT_ID, "s").is_some());
+        fs.unlink(&Context::default(), ROOT_ID, &c("s")).unwrap();
+        assert!(visible(&fs, ROOT_ID, "s").is_none(), "running instance still shows s");
+    }
+    let fresh = overlay(Some(up.as_path()), &[low.as_path()]);
+    assert!(visible(&fresh, ROOT_ID, "s").is_none(), "after restart the deleted name s is back (the lower file): no whiteout was left");
+}
+
+// O7: an opaque upper directory over a lower directory of the same name; removing it must hide the lower directory too.
+#[test]
+fn o7_rmdir_of_opaque_upper_dir_over_lower_dir_stays_deleted() {
+    let (up, low) = (TempDir::new().unwrap(), TempDir::new().unwrap());
+    fs::create_dir(low.as_path().join("q")).unwrap();
+    fs::write(low.as_path().join("q").join("old"), b"old").unwrap();
+    fs::create_dir(up.as_path().join("q")).unwrap();
+    let p = CString::new(up.as_path().join("q").to_string_lossy().to_string()).unwrap();
+    let n = CString::new("user.fuseoverlayfs.opaque").unwrap();
+    let rc = unsafe { libc::setxattr(p.as_ptr(), n.as_ptr(), b"y".as_ptr() as *const libc::c_void, 1, 0) };
+    if rc != 0 {
+        eprintln!("user xattrs not supported here: test skipped");
+        return;
+    }
+    {
+        let fs = overlay(Some(up.as_path()), &[low.as_path()]);
+        let q = visible(&fs, ROOT_ID, "q").expect("q visible");
+        assert_eq!(listing(&fs, q), Vec::<String>::new(), "opaque directory shows lower contents");
+        fs.rmdir(&Context::default(), ROOT_ID, &c("q")).unwrap();
+        assert!(visible(&fs, ROOT_ID, "q").is_none());
+    }
+    let fresh = overlay(Some(up.as_path()), &[low.as_path()]);
+    assert!(visible(&fresh, ROOT_ID, "q").is_none(), "after restart the removed directory q is back with the lower contents");
+}
+
 // O4 (C10): WRITE through a handle that was opened read-only on a file living in a lower layer is passed to the lower layer's write().
 // Observed through a recording lower layer would need a custom Layer; with passthrough layers the host refuses the pwrite on the
 // O_RDONLY descriptor, so here it is only checked that the overlay itself answers with an error and the lower file is unchanged.
